@@ -320,6 +320,18 @@ def r7(tree, rep):
 
 
 def run(tree, rep, tier):
+    # a failure while unpacking one member (disk full, refused write) is a failed transfer: no handler in _extract_file / _write_directory turns
+    # an exception of zf.extract / os.chmod / open / os.rename into a normal return
+    from ..ctxmgr import swallowing_handlers
+    for fname_ in ("_extract_file", "_write_directory", "_write_file", "_transfer_data"):
+        fn_ = tree.func(RX, "Receiver", fname_)
+        bad_ = swallowing_handlers(fn_, lambda c: isinstance(c.func, ast.Attribute) and c.func.attr in ("extract", "extractall", "chmod", "rename", "write", "open", "makedirs")
+                                   or (isinstance(c.func, ast.Name) and c.func.id == "open"))
+        rep.check("C04.R9", "Receiver.%s: no except-clause swallows a failure of writing / extracting / renaming" % fname_, not bad_,
+                  site(bad_[0][0] if bad_ else fn_, RX), key="C04.R9:%s:no-swallow" % fname_,
+                  what="Receiver.%s catches %s around %s and carries on: a member that could not be written is reported as a successful transfer" % (
+                      fname_, ast.unparse(bad_[0][0].type) if bad_ and bad_[0][0].type is not None else "everything",
+                      ast.unparse(bad_[0][1].func) if bad_ else "?"))
     from .. import ctxmgr
     ctxmgr.check_with_blocks(tree, rep, "C04.R8", ["src/wormhole/cli/cmd_send.py", "src/wormhole/cli/cmd_receive.py", "src/wormhole/transit.py"])
     r7(tree, rep)
